@@ -83,7 +83,9 @@ func (p *Parser) ParseFunctionParameters() []*ast.Identifier {
 
 func (p *Parser) ParseReturnStatement() *ast.ReturnStatement {
 	stmt := &ast.ReturnStatement{Token: p.CurrentToken}
-	if p.PeekToken.Type != token.SEMICOLON && p.PeekToken.Type != token.EOF && p.PeekToken.Type != token.RBRACE {
+	// Restricted production: the returned expression must start on the same line
+	// ('return\nx' is 'return; x')
+	if p.PeekToken.Type != token.SEMICOLON && p.PeekToken.Type != token.EOF && p.PeekToken.Type != token.RBRACE && !p.PeekToken.AfterNewline {
 		p.NextToken()
 		stmt.ReturnValue = p.ParseExpression()
 	}
